@@ -53,6 +53,7 @@ namespace {
     bool used = false;
     bool lib_extended = false; // the engine was built from a standard library the embedder had extended
     bool thing = false;        // a type named "Thing" is registered (which C++ type depends on the generation)
+    bool mod = false;          // the embedder's long-lived extension Module has been added to this engine
     std::shared_ptr<std::atomic<int>> bumps;
   };
 
@@ -86,7 +87,7 @@ namespace {
           op["extlib"] = J(plan.chance(400));
           occupied[s] = true;
         } else {
-          const int kind = int(plan.below(22));
+          const int kind = int(plan.below(26));
           switch (kind) {
           case 0:
           case 1:
@@ -134,7 +135,10 @@ namespace {
             break;
           case 14:
             op["k"] = J(plan.chance(600) ? "use" : "calluse");
-            op["nested"] = J(plan.chance(500));
+            // 0: plain; 1..3: that many further engines are created, used and destroyed on the same thread inside
+            // this engine's use() (nested_order: which of them dies first)
+            op["nested"] = J(int(plan.chance(500) ? plan.range(1, 3) : 0));
+            op["nested_order"] = J(int(plan.below(2)));
             break;
           case 18:
             op["k"] = J("calllib"); // a function / global the embedder put into THIS engine's library only
@@ -143,9 +147,21 @@ namespace {
           case 20:
             op["k"] = J(plan.chance(400) ? "addthing" : "readthing"); // the type name "Thing": another C++ type per generation
             break;
-          default:
+          case 24:
+          case 25:
+            // one extension Module owned by the embedder for the whole run, added to engines as they come and go
+            op["k"] = J(plan.chance(450) ? "addmod" : "callmod");
+            break;
+          case 21:
             op["k"] = J("loopfn");
             op["n"] = J(int(plan.range(1, 4)));
+            break;
+          default:
+            // an attribute attached to a value the script has just computed (a literal, a comparison result):
+            // it belongs to that value, another evaluation - in this or any other engine - never sees it
+            op["k"] = J(plan.chance(450) ? "attrset" : "attrget");
+            op["x"] = J(4 + int(plan.below(4))); // 0..3 (the shared bool constants) are known finding C14-K1 and not generated
+            op["v"] = J(int(plan.range(1, 99)));
             break;
           }
         }
@@ -198,7 +214,12 @@ namespace {
       }
       std::vector<std::string> fail(static_cast<size_t>(T));
       std::vector<std::map<std::string, int64_t>> cnt(static_cast<size_t>(T));
-      std::vector<char> nested_armed(static_cast<size_t>(T), 0);
+      std::vector<int> nested_armed(static_cast<size_t>(T), 0);
+      std::vector<int> nested_order(static_cast<size_t>(T), 0);
+      // the embedder's extension module: created once, outlives every engine of the run
+      ModulePtr ext_mod = std::make_shared<Module>();
+      ext_mod->add(fun([]() { return 4242; }), "modfn");
+      ext_mod->add_global_const(const_var(4243), "modglobal");
       std::vector<std::string> nested_verdict(static_cast<size_t>(T));
 
       auto body = [&](int a) {
@@ -262,25 +283,56 @@ namespace {
                 }
                 auto bumps = m.bumps;
                 eng[s]->add(fun([bumps]() { bumps->fetch_add(1); }), "bump");
-                eng[s]->add(fun([&nested_armed, &nested_verdict, &cnt, dir]() {
+                eng[s]->add(fun([&nested_armed, &nested_order, &nested_verdict, &cnt, dir]() {
                               const int me = sim_self();
                               if (me < 0 || !nested_armed[size_t(me)]) {
                                 return;
                               }
+                              const int n_inner = nested_armed[size_t(me)];
                               nested_armed[size_t(me)] = 0;
-                              // a fresh engine, used and destroyed inside the outer engine's use(): it must
-                              // behave like any fresh engine (evaluate the file once, see none of the outer state)
-                              int inner_bumps = 0;
-                              auto inner = make_engine({dir});
-                              inner->add(fun([&inner_bumps]() { ++inner_bumps; }), "bump");
-                              inner->add(fun([]() {}), "nested_hook");
-                              std::string v = eval_show(*inner, "use(\"lib.chai\"); from_lib(1)");
-                              std::string l = eval_show(*inner, "secret");
-                              std::string g = eval_show(*inner, "gl0");
-                              if (v != "=i:5001" || inner_bumps != 1 || l.rfind("!eval_error|Can not find object", 0) != 0 || g.rfind("!eval_error|Can not find object", 0) != 0) {
-                                nested_verdict[size_t(me)] = "nested engine: use+from_lib -> " + v + ", file evaluated " + std::to_string(inner_bumps) + " times, secret -> " + l + ", gl0 -> " + g;
+                              // fresh engines, created, used and destroyed inside the outer engine's use(): each must
+                              // behave like any fresh engine (evaluate the file once, see none of the outer state or of
+                              // one another), and the outer evaluation must carry on undisturbed afterwards
+                              std::vector<int> inner_bumps(size_t(n_inner), 0);
+                              std::vector<std::unique_ptr<Engine>> inner;
+                              for (int q = 0; q < n_inner; ++q) {
+                                inner.push_back(make_engine({dir}));
+                                int *ib = &inner_bumps[size_t(q)];
+                                inner.back()->add(fun([ib]() { ++*ib; }), "bump");
+                                inner.back()->add(fun([]() {}), "nested_hook");
+                                const std::string mine = eval_show(*inner.back(), "var inner_secret = " + std::to_string(700 + q) + "; inner_secret");
+                                if (mine != "=i:" + std::to_string(700 + q)) {
+                                  nested_verdict[size_t(me)] = "nested engine " + std::to_string(q) + ": own variable -> " + mine;
+                                }
+                              }
+                              for (int q = 0; q < n_inner; ++q) {
+                                Engine &in = *inner[size_t(q)];
+                                std::string v = eval_show(in, "use(\"lib.chai\"); from_lib(1)");
+                                std::string l = eval_show(in, "secret");
+                                std::string g = eval_show(in, "gl0");
+                                std::string own = eval_show(in, "inner_secret");
+                                if (v != "=i:5001" || inner_bumps[size_t(q)] != 1 || l.rfind("!eval_error|Can not find object", 0) != 0 || g.rfind("!eval_error|Can not find object", 0) != 0
+                                    || own != "=i:" + std::to_string(700 + q)) {
+                                  nested_verdict[size_t(me)] = "nested engine " + std::to_string(q) + " of " + std::to_string(n_inner) + ": use+from_lib -> " + v + ", file evaluated "
+                                      + std::to_string(inner_bumps[size_t(q)]) + " times, secret -> " + l + ", gl0 -> " + g + ", inner_secret -> " + own;
+                                }
+                              }
+                              if (nested_order[size_t(me)] == 0) {
+                                while (!inner.empty()) {
+                                  inner.erase(inner.begin()); // oldest first
+                                  if (!inner.empty() && eval_show(*inner.back(), "inner_secret") != "=i:" + std::to_string(700 + n_inner - 1)) {
+                                    nested_verdict[size_t(me)] = "nested engine lost its variable when an older sibling was destroyed";
+                                  }
+                                }
+                              } else {
+                                while (!inner.empty()) {
+                                  inner.pop_back();
+                                }
                               }
                               cnt[size_t(me)]["probe_engine_used_nested_inside_use_of_another"] += 1;
+                              if (n_inner > 1) {
+                                cnt[size_t(me)]["probe_several_engines_nested_inside_use_of_another"] += 1;
+                              }
                             }),
                             "nested_hook");
                 eng[s]->add(fun([](int v) { return CA{v}; }), "make_a");
@@ -399,7 +451,11 @@ namespace {
                 }
               } else if (k == "use") {
                 const int before = m.bumps->load();
-                nested_armed[size_t(a)] = op.at("nested").truthy() ? 1 : 0;
+                nested_armed[size_t(a)] = int(op.at("nested").num(0)) % 4; // (older replay files hold true/false)
+                if (nested_armed[size_t(a)] == 0 && op.at("nested").truthy()) {
+                  nested_armed[size_t(a)] = 1;
+                }
+                nested_order[size_t(a)] = op.has("nested_order") ? int(op.at("nested_order").num(0)) : 1;
                 out = eval_show(e, "use(\"lib.chai\")");
                 nested_armed[size_t(a)] = 0;
                 if (!nested_verdict[size_t(a)].empty()) {
@@ -441,6 +497,38 @@ namespace {
               } else if (k == "readthing") {
                 out = eval_show(e, "type(\"Thing\", false).is_type_undef() ? 0 : thing_kind(type(\"Thing\"))");
                 expect(!m.thing ? std::string("=i:0") : (m.gen % 2 == 0 ? "=i:1" : "=i:2"));
+              } else if (k == "addmod") {
+                if (!m.mod) {
+                  try {
+                    e.add(ext_mod);
+                    out = "added";
+                  } catch (...) {
+                    out = "!" + describe_current_exception(&e);
+                  }
+                  m.mod = true;
+                  expect("added");
+                  cnt[size_t(a)]["probe_long_lived_module_added"] += 1;
+                } else {
+                  out = "skipped";
+                }
+              } else if (k == "callmod") {
+                out = eval_show(e, "modfn() + modglobal");
+                if (m.mod) {
+                  expect("=i:8485");
+                } else if (out.rfind("!eval_error|Can not find object", 0) != 0) {
+                  bad(oi, "foreign-or-wrong-value", "the extension module was added to another engine only, yet here: " + out);
+                }
+              } else if (k == "attrset" || k == "attrget") {
+                static const char *vals[] = {"true", "false", "(1 < 2)", "(2 == 3)", "5", "\"s\"", "(3 + 4)", "to_string(12)"};
+                const std::string x = vals[op.at("x").num() % 8];
+                if (k == "attrset") {
+                  out = eval_show(e, "get_var_attr(" + x + ", \"mark\") = " + std::to_string(tag + op.at("v").num()) + "; 0");
+                  expect("=i:0");
+                  cnt[size_t(a)]["probe_attribute_attached_to_computed_value"] += 1;
+                } else {
+                  out = eval_show(e, "get_var_attr(" + x + ", \"mark\").is_var_undef() ? 0 : get_var_attr(" + x + ", \"mark\")");
+                  expect("=i:0");
+                }
               } else if (k == "loopfn") {
                 // a fresh function scope with locals: must not see top-level locals of other generations
                 out = eval_show(e, "fun(n) { var acc = 0; for (var i = 0; i < n; ++i) { acc += i }; return acc }(" + std::to_string(op.at("n").num()) + ")");
